@@ -2014,12 +2014,16 @@ impl QueryServer {
         // Point of no return - we now have a DB thread AND the read ticket, we MUST complete
         // as soon as possible! The following locks and elements below are SYNCHRONOUS but
         // will never be contented at this point, and will always progress.
+        #[cfg(feature = "verif-hooks")] crate::verif_hooks::fault::pause_point("r.qs.start");
         let schema = self.schema.read();
+        #[cfg(feature = "verif-hooks")] crate::verif_hooks::fault::pause_point("r.qs.schema");
 
         let cid_max = self.cid_max.read();
         let trim_cid = cid_max.sub_secs(CHANGELOG_MAX_AGE)?;
+        #[cfg(feature = "verif-hooks")] crate::verif_hooks::fault::pause_point("r.qs.cid");
 
         let be_txn = self.be.read()?;
+        #[cfg(feature = "verif-hooks")] crate::verif_hooks::fault::pause_point("r.qs.be");
 
         Ok(QueryServerReadTransaction {
             be_txn,
@@ -3004,6 +3008,7 @@ impl<'a> QueryServerWriteTransaction<'a> {
     #[instrument(level = "debug", name="qswt_commit" skip_all)]
     pub fn commit(mut self) -> Result<(), OperationError> {
         self.reload()?;
+        #[cfg(feature = "verif-hooks")] crate::verif_hooks::fault::pause_point("w.qs.reloaded");
 
         // Now destructure the transaction ready to reset it.
         let QueryServerWriteTransaction {
@@ -3041,13 +3046,16 @@ impl<'a> QueryServerWriteTransaction<'a> {
         // Write the cid to the db. If this fails, we can't assume replication
         // will be stable, so return if it fails.
         be_txn.set_db_ts_max(cid.ts)?;
+        #[cfg(feature = "verif-hooks")] crate::verif_hooks::fault::pause_point("w.qs.ts_max");
         cid.commit();
+        #[cfg(feature = "verif-hooks")] crate::verif_hooks::fault::pause_point("w.qs.cid");
 
         // We don't care if this passes/fails, committing this is fine.
         if resolve_filter_cache_clear {
             resolve_filter_cache_write.clear();
         }
         resolve_filter_cache_write.commit();
+        #[cfg(feature = "verif-hooks")] crate::verif_hooks::fault::pause_point("w.qs.rfc");
 
         // Point of no return - everything has been validated and reloaded.
         //
